@@ -107,6 +107,15 @@ Theorem C34_ray_quad : forall a b c : R, 0 <= a -> (a = 0 -> b = 0) ->
 Proof. exact ray_quad_spec. Qed.
 Print Assumptions C34_ray_quad.
 
+(* the root pair _ray_quad stores (ray_capsule examines BOTH roots of each end-cap sphere): (-1,-1) below the
+   1e-15 discriminant, else the two roots x0 <= x1 of the quadratic, and every root is one of them *)
+Theorem C34_ray_quad_roots : forall a b c : R, 0 <= a -> (a = 0 -> b = 0) ->
+  (b * b - a * c < EPS /\ snd (_ray_quad a b c) = [-1; -1])
+  \/ (EPS <= b * b - a * c /\ 0 < a /\ exists x0 x1, snd (_ray_quad a b c) = [x0; x1] /\ x0 <= x1 /\
+      quad a b c x0 = 0 /\ quad a b c x1 = 0 /\ forall t, quad a b c t = 0 -> t = x0 \/ t = x1).
+Proof. exact ray_quad_roots. Qed.
+Print Assumptions C34_ray_quad_roots.
+
 (* ray_sphere: the returned x >= 0 satisfies |pnt + x vec - pos|^2 = dist_sqr, is the smallest such
    non-negative parameter, and the normal is the outward unit normal (hit - pos)/radius; -1 is
    returned only if the discriminant is below 1e-15 (grazing/miss) or there is no root x >= 0.
